@@ -227,7 +227,8 @@ package provider
 //@             (formValue(r, "SigAlg") != "" && formValue(r, "Signature") == "") ||
 //@             (decCalls == old(decCalls) + 1 && !decOK) || (decCalls == old(decCalls) + 1 && decOK && as(decObj, "samlp.AuthnRequestType").Issuer == nil) ||
 //@             (spLookups == old(spLookups) + 1 && !spOK) || (ccCalls == old(ccCalls) + 1 && !ccOK) ||
-//@             (vrCalls == old(vrCalls) + 1 && !vrOK) || (vpCalls == old(vpCalls) + 1 && !vpOK) ||
+//@             (vrCalls == old(vrCalls) + 1 && !vrOK && redirectBinding(r) && (signingRequired(p) || formValue(r, "Signature") != "")) ||
+//@             (vpCalls == old(vpCalls) + 1 && !vpOK && !redirectBinding(r) && (signingRequired(p) || decSigValue())) ||
 //@             (redirectBinding(r) && spLookups == old(spLookups) + 1 && spOK && signingRequired(p) && formValue(r, "Signature") == "") ||
 //@             (redirectBinding(r) && formValue(r, "Signature") != "" && formValue(r, "SigAlg") == "") ||
 //@             (redirectBinding(r) && decCalls == old(decCalls) + 1 && decOK && decSigValue()) ||
@@ -552,6 +553,9 @@ package provider
 //@             nowCalls == old(nowCalls) + 1 &&
 //@             (#authNRequest.Conditions.NotBefore != "" ==> timeParseOK(DefaultTimeFormat, #authNRequest.Conditions.NotBefore) && timeVal(DefaultTimeFormat, #authNRequest.Conditions.NotBefore) <= clock) &&
 //@             (#authNRequest.Conditions.NotOnOrAfter != "" ==> timeParseOK(DefaultTimeFormat, #authNRequest.Conditions.NotOnOrAfter) && clock < timeVal(DefaultTimeFormat, #authNRequest.Conditions.NotOnOrAfter))
+//@   ensures C07.content-check-rejects-only-for-a-reason: result != nil ==> (tcCalls == old(tcCalls) + 1 && !tcOK) || #authNRequest.Id == "" || #authNRequest.Version == "" ||
+//@             #authNRequest.Issuer.Text == "" || #authNRequest.Issuer.Text != #sp.Metadata.EntityID ||
+//@             (#authNRequest.Destination != "" && !advertised(#idpMetadata, #authNRequest.Destination))
 //@   canary canary-always-ok: result == nil
 //@
 //@ func provider.verifyRequestDestinationOfAuthRequest
